@@ -559,7 +559,7 @@ func (w *world) exec1(op string) string {
 
 func (w *world) run(t *trace.W, op string) string {
 	if w.useSrv && w.srv != nil {
-		w.srv.MustLead()
+		w.srv.MustLead(!w.gated)
 	}
 	if strings.HasPrefix(op, "reset") && w.gated {
 		w.drain()
@@ -569,7 +569,7 @@ func (w *world) run(t *trace.W, op string) string {
 		res = w.exec(op)
 	}
 	if w.useSrv && w.srv != nil {
-		w.srv.MustLead()
+		w.srv.MustLead(!w.gated)
 	}
 	if res == "bad-op" || w.rc == nil {
 		t.Line(op, res)
